@@ -130,7 +130,7 @@ schema('cert_record', E(0x01, OCTETS, 1, 1, name='cert_id'), E(0x02, DER, 1, 1, 
 schema('pubfile',                                         # sections in fixed order, the signature last
        E(0x701, COMP, 1, 1, sub='pubfile_header', order=0, name='header'), E(0x702, COMP, 0, N, sub='cert_record', order=1, name='cert_rec'),
        E(0x703, COMP, 0, N, sub='publication_record', order=2, name='pub_rec'), E(0x704, DER, 1, 1, order=3, pos='last', name='signature'),
-       unknown_after_last='undecided')
+       unknown_after_last='reject')       # "a single final PKI-signature record": an ignorable record after it would be unsigned
 
 # roots: (object kind, PDU version) -> {top tag: schema}
 ROOTS = {
@@ -274,6 +274,8 @@ class Acceptor:
             if e is None:
                 if not c.nc:
                     rej.append('unknown-critical')
+                elif last_seen and S.unknown_after_last == 'reject':
+                    rej.append('position:after-last')      # nothing may follow the final element, not even an ignorable one
                 elif last_seen and S.unknown_after_last != 'ignored':
                     skp.append('unknown-after-last')
                 continue
